@@ -12,15 +12,27 @@ package gopacket
 //@ spec rec sum16(a []byte, n int) int = n <= 0 ? 0 : sum16(a, n-2) + 256*a[n-2] + a[n-1]
 //@ spec tot16(a []byte) int = sum16(a, len(a) - len(a)%2) + (len(a)%2 == 1 ? 256*a[len(a)-1] : 0)
 
+// oc32: one's-complement reduction of a natural number to 32 bits (what the end-around carry loop computes).
+//@ spec oc32(x int) int = x == 0 ? 0 : (x-1)%4294967295 + 1
+
 //@ func ComputeChecksum(data []byte, csum uint32) uint32
 //@   props C08
-//@   requires csum + 65535*((len(data)+1)/2) < 4294967296
-//@   ensures  result == csum + tot16(data)
+//@   requires len(data) <= 1099511627776
+//@   ensures  result == oc32(csum + tot16(data))
+//@   ensures  csum + tot16(data) < 4294967296 ==> result == csum + tot16(data)
 //@   modifies nothing
 //@   loop 0: invariant 0 <= i && i%2 == 0 && i <= len(data)
 //@   loop 0: invariant sum16(data, i) <= 65535*(i/2) && sum16(data, i) >= 0
-//@   loop 0: invariant csum == old(csum) + sum16(data, i)
+//@   loop 0: invariant sum == csum + sum16(data, i)
 //@   loop 0: decreases len(data) - i
+//@   loop 1: invariant oc32(sum) == oc32(csum + tot16(data)) && sum >= 0
+//@   loop 1: decreases sum
+
+// oc16 of a 32-bit one's-complement reduction is oc16 of the number itself (65535 divides 2^32-1).
+//@ lemma oc16_oc32(x int)
+//@   props C08
+//@   requires x >= 0
+//@   ensures oc16(oc32(x)) == oc16(x)
 
 //@ func FoldChecksum(csum uint32) uint16
 //@   props C08
